@@ -554,6 +554,18 @@ def rules(ctx):
                     if src(c.func) == '%s.convert_solution' % tgt and c.args and is_name(c.args[0], R.self_name(f_)):
                         ok = True
                         check_forwarding(ctx, 'R01.9', f_, c, P.func('%s.convert_solution' % tgt), skip_self=False)
+                if not ok:
+                    # written out instead of delegating: the same statements as the target's own method (self renamed)
+                    tf = P.func('%s.convert_solution' % tgt)
+                    import re as _re
+                    def _txt(fn_):
+                        sn_ = R.self_name(fn_)
+                        from ..astutil import alpha_src
+                        return [_re.sub(r'\b%s\b' % _re.escape(sn_), 'self', alpha_src(x)) for x in strip_docstring(fn_.node.body)]
+                    same = _txt(f_) == _txt(tf)
+                    same = same and f_.all_params[1:] == tf.all_params[1:]
+                    if same and decode_range_ok(f_, R.self_name(f_))[0]:
+                        ok = True
         ctx.inst('R01.8', (P.cls(cname_).module.relpath, cname_), '%s.convert_solution' % cname_, ok,
                  "delegates to %s.convert_solution" % tgt if ok else "does not delegate to %s.convert_solution" % tgt)
 
